@@ -287,7 +287,14 @@ func genDepositMatrix(g *Gen, n int) {
 		if lim != "none" {
 			z, _ := new(big.Int).SetString(lim, 10)
 			if broken["over-limit"] {
-				amts = []string{clamp256(new(big.Int).Add(z, big.NewInt(1))).String(), two256m1.String()}
+				// limit+1, the maximum, and amounts above the limit whose low 64 (128) bits are at most the limit
+				w := uint(g.pickInt([]int{64, 64, 128}))
+				amts = []string{clamp256(new(big.Int).Add(z, big.NewInt(1))).String(), two256m1.String(),
+					clamp256(new(big.Int).Add(new(big.Int).Lsh(big.NewInt(1), w), new(big.Int).Mod(z, new(big.Int).Lsh(big.NewInt(1), 63)))).String(),
+					clamp256(new(big.Int).Lsh(big.NewInt(1), w)).String()}
+				if z.Cmp(new(big.Int).Lsh(big.NewInt(1), w)) >= 0 {
+					amts = amts[:2] // the limit itself is wider than a word: those amounts may be within it
+				}
 			} else {
 				amts = []string{z.String(), clamp256(new(big.Int).Sub(z, big.NewInt(1))).String(), "1"}
 			}
